@@ -765,6 +765,33 @@ def gen_redispatch(seed, mode="loop"):
     return sc
 
 
+def gen_idle_throttled(seed, mode="loop"):
+    """C02/C01: a module that is throttled (token bucket) and out of tokens while still IDLE / STOPPED / PAUSED is started by the
+    loop's evaluation pass (or later by an explicit call once tokens are back): once it is RUNNING it has a mailbox like any
+    other module - messages told to it are delivered, a poison pill stops it"""
+    r = random.Random(seed * 97 + 67)
+    sc = Sc(mode, "module out of tokens when it gets started seed=%d" % seed)
+    driven_skeleton(sc)
+    T, S2 = 1, 2
+    sc.mod(T, "broke", 0, r.choice([0, 2, 6]))
+    sc.mod(S2, "sender", 0, 0)
+    for k in ("start", "stop"):
+        sc.cb(T, k, "*", [], ret=1)
+    sc.cb(T, "evt", "*", [])
+    sc.cb(S2, "evt", "*", [])
+    burst = r.randrange(1, 4)
+    tp = [sc.topic(t) for t in ("alpha", "beta", "gamma", "ab1")]
+    sc.main += [("reg", T), ("reg", S2), ("start", S2), ("tb", T, r.choice([1, 2]), burst)]
+    for k in range(burst + r.randrange(0, 2)):
+        sc.main.append(("sub", T, tp[k % 4], 0, sc.ud()))        # spends the tokens while the module is idle
+    steps = [[], [("tell", S2, T, sc.pay(), 0)], [], [("tell", S2, T, sc.pay(), 0), ("publish", S2, tp[0], sc.pay(), 0)], [], []]
+    if r.random() < 0.5:
+        steps += [[("pill", S2, T)], [], [("tell", S2, T, sc.pay(), 0)], []]
+    driven_finish(sc, steps, rng=r)
+    finalize_main(sc)
+    return sc
+
+
 def gen_tick_in_flush(seed, mode="loop"):
     """C20: m_ctx_set_tick() called by a handler that the final flush of a loop run invokes (loop-stopped notification) while a
     tick is active"""
